@@ -8,6 +8,8 @@ import (
 	"strconv"
 	"strings"
 
+	"github.com/issue9/mux/v9"
+
 	"verifharness/explore"
 	"verifharness/hv"
 	"verifharness/ref"
@@ -20,6 +22,28 @@ var c08Steps = []hv.Step{
 	{Op: "W", N: 0}, {Op: "W", N: 1}, {Op: "W", N: 3},
 	{Op: "Set", K: "X-A", V: "1"}, {Op: "Set", K: "Content-Type", V: "text/x"}, {Op: "Del", K: "X-A"},
 	{Op: "Set", K: "X-B", V: "2"},
+}
+
+// headTrialRecovered: the GET handler program panics somewhere and a recovery option answers; HEAD must still
+// mirror GET (status, headers as sent) and deliver no body.
+func headTrialRecovered(prog []hv.Step) (class, obs, exp string) {
+	r := NewRouter(RouterCfg{}, mux.WithStatusRecovery(500))
+	r.Handle("/r", hv.Route("hp", prog...), nil, "GET")
+	g := hv.Serve(r, hv.Req{Method: "GET", Path: "/r"})
+	h := hv.Serve(r, hv.Req{Method: "HEAD", Path: "/r"})
+	if g.Paniced || h.Paniced {
+		return "panic-escaped-recovery", fmt.Sprintf("GET panic=%v HEAD panic=%v", g.Panic, h.Panic), "contained by WithStatusRecovery"
+	}
+	if len(h.Body) != 0 {
+		return "head-body-leaks:recovery", fmt.Sprintf("HEAD delivered %d body bytes (%q)", len(h.Body), h.Body), "0 body bytes"
+	}
+	if h.Status != g.Status {
+		return "head-status-differs:recovery", fmt.Sprintf("HEAD %d", h.Status), fmt.Sprintf("GET %d", g.Status)
+	}
+	if gh, hh := headerString(g.Header, "Content-Length"), headerString(h.Header, "Content-Length"); gh != hh {
+		return "head-headers-differ:recovery", "HEAD headers as sent: " + hh, "GET headers as sent: " + gh
+	}
+	return "", "", ""
 }
 
 type progItem struct {
@@ -111,8 +135,29 @@ func progJob(raw json.RawMessage) (any, error) {
 	outc := map[string]struct{}{}
 	try := func(p []hv.Step) {
 		out.Evals++
-		class, obs, exp, oc := headTrial(p)
+		var class, obs, exp, oc string
+		hasPanic := false
+		for _, st := range p {
+			if st.Op == "Panic" {
+				hasPanic = true
+			}
+		}
+		if hasPanic { // replay of a recovered-panic case
+			class, obs, exp = headTrialRecovered(p)
+		} else {
+			class, obs, exp, oc = headTrial(p)
+		}
 		outc[oc] = struct{}{}
+		if !hasPanic && class == "" && len(p) <= 3 {
+			// the same program with a panic inserted at every position, under a recovery option
+			for i := 0; i <= len(p) && class == ""; i++ {
+				pp := append(append(append([]hv.Step{}, p[:i]...), hv.Step{Op: "Panic"}), p[i:]...)
+				out.Evals++
+				if class, obs, exp = headTrialRecovered(pp); class != "" {
+					p = pp
+				}
+			}
+		}
 		if class != "" {
 			out.Viols = append(out.Viols, explore.Violation{Property: "C08", Clause: "C08.head", Class: class, Probe: "GET handler program " + progString(p) + ", GET vs HEAD /r", Observed: obs, Expected: exp,
 				Replay: explore.ItemReplay("c08/progs", progItem{Only: p, One: true})})
@@ -146,6 +191,8 @@ func progJob(raw json.RawMessage) (any, error) {
 func c08Alphabet() []Op {
 	return []Op{
 		{K: "handle", P: "/r", Ms: []string{"GET"}},
+		{K: "handle", P: "/r", Ms: []string{"GET"}, MW: []string{"M1"}},
+		{K: "use"},
 		{K: "handle", P: "/r", Ms: []string{"POST"}},
 		{K: "handle", P: "/r", Ms: []string{"PUT"}},
 		{K: "handle", P: "/r", Ms: []string{"GET", "POST"}},
@@ -190,6 +237,9 @@ func c08Check(cfg RouterCfg, hist []Op, r *Router, t *ref.Table, c *explore.Chil
 				}
 			case m == "HEAD":
 				if rt.Methods["GET"] != "" {
+					if g := hv.Serve(r, hv.Req{Method: "GET", Path: p}); !g.Paniced && g.HID != o.HID {
+						rep("C08.head-follows-get", "head-runs-other-middleware-chain", q.String(), "HEAD ran "+o.HID, "exactly what GET runs: "+g.HID, q)
+					}
 					if o.CoreID != rt.Methods["GET"] || !o.WIsHead {
 						rep("C08.head-follows-get", "head-not-served-while-get-live", q.String(), o.Summary(), "GET's handler "+rt.Methods["GET"]+" behind the body-discarding writer", q)
 					}
@@ -247,6 +297,7 @@ func init() {
 		rc.Set("program_max_len", plen)
 		rc.Set("history_depth", depth)
 		rc.Assume = append(rc.Assume,
+			"(a') every program of length <= 3 with a panic inserted at every position, on a router with WithStatusRecovery: HEAD still mirrors GET and delivers no body",
 			"(a) every handler program of length <= bound over {WriteHeader(201|404), Write(0|1|3), Set(X-A|Content-Type|X-B), Del(X-A)} registered as the GET handler and run under GET and HEAD on a ResponseWriter with wire semantics (headers frozen when the status line is sent)",
 			"(b) every history over the C08 alphabet on one pattern plus a sibling that splits it and the root pattern, with and without WithTrace; after every step HEAD iff GET, OPTIONS iff live, reserved/unknown registrations rejected without effect")
 		items := []progItem{{First: -1}}
